@@ -24,7 +24,7 @@ static struct channel CH;
 static struct channel_reader RD[2];
 static int CUR_CASE;
 static void* W_RESULT; static int W_RETURNED;
-static int WITH_A;
+static int WITH_A, PARTIAL;
 
 static void load_cases(const char* path)
 {
@@ -50,6 +50,7 @@ static void setup(void)
     load_cases(vs_param_str("cases", "/dev/null"));
     if (!NCASES) { fprintf(stderr, "chan_main: no blocked cases\n"); exit(2); }
     WITH_A = (int)vs_param("with_a", 0);
+    PARTIAL = (int)vs_param("partial", 0);
     channel_new(&CH, (size_t)CASES[0].cap);
     vs_watch(&CH.is_accepting_writes, sizeof CH.is_accepting_writes, "channel.is_accepting_writes");
     vs_name(&CH.lock, "channel.lock");
@@ -60,7 +61,16 @@ static void writer(void* a)
 {
     (void)a;
     W_RESULT = channel_write_map(&CH, (size_t)CASES[CUR_CASE].n);
-    if (W_RESULT) channel_write_unmap(&CH);
+    if (W_RESULT) {
+        // C02 at thread level (a writer that was asleep and woken must re-check): the granted region [beg, beg+n) may not reach into
+        // what a reader one lap behind has not consumed yet ([pos_r, high) of the previous lap), nor beyond the buffer
+        size_t beg = (size_t)((uint8_t*)W_RESULT - CH.data), n = (size_t)CASES[CUR_CASE].n;
+        if (beg + n > CH.capacity) vs_fail("C02:write-region-outside-buffer", "case %d: writer was handed [%zu,%zu) in a buffer of %zu bytes", CUR_CASE, beg, beg + n, CH.capacity);
+        for (unsigned r = 0; r < CH.holds.n; ++r)
+            if (CH.holds.cycles[r] + 1 == CH.cycle && beg + n > CH.holds.pos[r])
+                vs_fail("C02:write-overlaps-unconsumed", "case %d: writer was handed [%zu,%zu) although reader %u, one lap behind, has not consumed [%zu,...) yet", CUR_CASE, beg, beg + n, r, CH.holds.pos[r]);
+        channel_write_unmap(&CH);
+    }
     W_RETURNED = 1;
     vs_note("writer returned %s", W_RESULT ? "a region" : "no region");
 }
@@ -71,7 +81,9 @@ static void reader(void* a)
     for (int k = 0; k < 3; ++k) {
         if (r->state == ChannelState_Mapped) channel_read_unmap(&CH, r, (size_t)-1); // releases what the start state holds mapped
         struct slice s = channel_read_map(&CH, r);
-        channel_read_unmap(&CH, r, (size_t)(s.end - s.beg));
+        size_t len = (size_t)(s.end - s.beg);
+        if (PARTIAL && len > 1) { channel_read_unmap(&CH, r, 1); s = channel_read_map(&CH, r); len = (size_t)(s.end - s.beg); } // gives back one byte first: a wake-up that frees too little
+        channel_read_unmap(&CH, r, len);
     }
 }
 static void refuser(void* a) { (void)a; channel_accept_writes(&CH, 0); }
